@@ -4,9 +4,9 @@ package main
 
 import (
 	"fmt"
+	"math/big"
 	"go/constant"
 	"go/types"
-	"strconv"
 	"strings"
 )
 
@@ -150,15 +150,11 @@ func (e *Env) ev(x Expr) SV {
 	g := e.ft.g
 	switch n := x.(type) {
 	case *EInt:
-		v, err := strconv.ParseInt(n.V, 0, 64)
-		if err != nil {
-			u, err2 := strconv.ParseUint(n.V, 0, 64)
-			if err2 != nil {
-				efail("bad integer %s", n.V)
-			}
-			return SV{fmt.Sprintf("%d", u), tInt}
+		bi, ok := new(big.Int).SetString(n.V, 0)
+		if !ok {
+			efail("bad integer %s", n.V)
 		}
-		return SV{fmt.Sprintf("%d", v), tInt}
+		return SV{bi.String(), tInt}
 	case *EBool:
 		if n.V {
 			return SV{"true", tBool}
@@ -526,6 +522,9 @@ func (e *Env) fieldOf(xv SV, name string) SV {
 		t = p.Elem()
 	}
 	s := g.reg.SortOf(t)
+	if xv.Ty.Raw != "" {
+		s = xv.Ty.Raw
+	}
 	si := g.reg.structs[s]
 	if si == nil {
 		efail("field %s of non-struct sort %s", name, s)
@@ -615,25 +614,64 @@ func (e *Env) call(n *ECall) SV {
 		srt := e.sort(xv.Ty)
 		fn := g.hintFn(srt)
 		return SV{"(" + fn + " " + xv.T + ")", tBool}
-	case "mar":
-		// mar(x): protobuf encoding of message value x (E-codec)
+	case "mar", "marlp":
+		// mar(x): protobuf encoding of message value x (E-codec); sub-messages referenced by pointer are read in the current state
 		xv := e.ev(n.Args[0])
-		if xv.Ty == nil || xv.Ty.Go == nil {
+		var ty types.Type
+		if xv.Ty != nil {
+			ty = xv.Ty.Go
+		}
+		if xv.Ty != nil && strings.HasPrefix(xv.Ty.Raw, "Flat_") {
+			// already flat
+			mar, _, _ := g.codecFnsSort(xv.Ty.Raw, xv.Ty.Go, n.Fn == "marlp")
+			return SV{"(" + mar + " " + xv.T + ")", goT(types.NewSlice(types.Typ[types.Byte]))}
+		}
+		if ty == nil {
 			efail("mar of untyped value")
 		}
-		mar, _, _ := g.codecFns(xv.Ty.Go)
-		return SV{"(" + mar + " " + xv.T + ")", goT(types.NewSlice(types.Typ[types.Byte]))}
-	case "unm", "venc":
-		// unm(T, b): message decoded from b ; venc(T, b): b is a valid encoding of a T
+		mar, _, _ := g.codecFns(ty, n.Fn == "marlp")
+		flat := g.flattenWith(xv.T, ty, func(srt string) string { return e.ft.stateGet(e.st, "H|"+srt, "(Array Int "+srt+")") })
+		return SV{"(" + mar + " " + flat + ")", goT(types.NewSlice(types.Typ[types.Byte]))}
+	case "nextRef":
+		// nextRef(): allocation watermark; references >= nextRef() are not yet allocated
+		return SV{e.ft.stateGet(e.st, "$next", "Int"), tInt}
+	case "mkflat":
+		// mkflat(T, a, b, ...): flat message value of type T from its components in field order
+		// (a pointer-to-message field contributes two components: isNil, value)
+		id, ok := exprTypeName(n.Args[0])
+		if !ok {
+			efail("mkflat(T, ...) needs a type name")
+		}
+		ty := e.resolveType(id)
+		fs := g.flatSort(ty.Go)
+		si := g.reg.structs[fs]
+		if si == nil || len(si.Fields) != len(n.Args)-1 {
+			efail("mkflat(%s): wrong number of components", id)
+		}
+		var as []string
+		for i, a := range n.Args[1:] {
+			v := e.coerceNil(e.ev(a), goT(si.FTypes[i]))
+			as = append(as, v.T)
+		}
+		return SV{"(" + si.Ctor + " " + strings.Join(as, " ") + ")", &SType{Go: ty.Go, Raw: fs}}
+	case "flat":
+		xv := e.ev(n.Args[0])
+		if xv.Ty == nil || xv.Ty.Go == nil {
+			efail("flat of untyped value")
+		}
+		flat := g.flattenWith(xv.T, xv.Ty.Go, func(srt string) string { return e.ft.stateGet(e.st, "H|"+srt, "(Array Int "+srt+")") })
+		return SV{flat, &SType{Go: xv.Ty.Go, Raw: g.flatSort(xv.Ty.Go)}}
+	case "unm", "venc", "unmlp", "venclp":
+		// unm(T, b): (flat) message decoded from b ; venc(T, b): b is a valid encoding of a T
 		id, ok := exprTypeName(n.Args[0])
 		if !ok {
 			efail("%s(T, b) needs a type name", n.Fn)
 		}
 		ty := e.resolveType(id)
 		bv := e.ev(n.Args[1])
-		_, unm, venc := g.codecFns(ty.Go)
-		if n.Fn == "unm" {
-			return SV{"(" + unm + " " + bv.T + ")", ty}
+		_, unm, venc := g.codecFns(ty.Go, strings.HasSuffix(n.Fn, "lp"))
+		if strings.HasPrefix(n.Fn, "unm") {
+			return SV{"(" + unm + " " + bv.T + ")", &SType{Go: ty.Go, Raw: g.flatSort(ty.Go)}}
 		}
 		return SV{"(" + venc + " " + bv.T + ")", tBool}
 	case "typeof":
@@ -695,6 +733,9 @@ func (e *Env) call(n *ECall) SV {
 			ne.vars[p.Name] = args[i]
 		}
 		v := ne.ev(sf.Body)
+		if v.Ty != nil && v.Ty.Raw != "" {
+			return v
+		}
 		return SV{v.T, rt}
 	}
 	g.declareSpecFunc(sf)
